@@ -19,8 +19,17 @@ EXTENDS Naturals, Sequences, FiniteSets, TLC, Json
 CONSTANTS MaxFaults   \* rows with at most this many faulting units
 
 Where == <<"setUp", "test", "tearDown", "cleanup">>
-Beh   == {"ret", "retv", "fail", "err", "skip"}      \* return None / a value, raise failureException / another
-Faults == {"fail", "err", "skip"}                    \* Exception / SkipTest
+\* what a unit raises / its fired Deferred failed with.  _run_user treats every kind alike (no exception type is
+\* special to it) - in particular the exception types the runners themselves use:
+\*   fail = failureException, err = another Exception, skip = SkipTest,
+\*   dnf = testtools' own DeferredNotFired (e.g. the test called extract_result() on a Deferred nobody fired),
+\*   dnfsub = a subclass of it, spin = the Spinner's TimeoutError, nores = its NoResultError,
+\*   xfail = _ExpectedFailure, uxs = _UnexpectedSuccess, multi = MultipleExceptions(err, fail),
+\*   ki = KeyboardInterrupt, exit = SystemExit
+Core    == {"fail", "err", "skip", "dnf"}            \* combined pairwise
+Special == {"dnfsub", "spin", "nores", "xfail", "uxs", "multi", "ki", "exit"}   \* one at a time
+Faults == Core \cup Special
+Beh   == {"ret", "retv"} \cup Faults                 \* return None / a value, or fault
 
 VARIABLES row,   \* 1..4 -> Beh
           via,   \* under the sync runner the units return fired Deferreds ("deferred") or behave plainly ("plain")
@@ -29,7 +38,8 @@ vars == <<row, via, pc, effD, effS, hist>>
 
 NFaults(r) == Cardinality({i \in 1..4 : r[i] \in Faults})
 
-Init == /\ row \in {r \in [1..4 -> Beh] : NFaults(r) <= MaxFaults /\ r[1] # "retv" /\ r[3] # "retv" /\ r[4] # "retv"}
+Init == /\ row \in {r \in [1..4 -> Beh] : /\ NFaults(r) <= MaxFaults /\ r[1] # "retv" /\ r[3] # "retv" /\ r[4] # "retv"
+                                          /\ (NFaults(r) > 1 => \A i \in 1..4 : r[i] \in Faults => r[i] \in Core)}
         /\ via \in {"deferred", "plain"}
         /\ pc = "start" /\ effD = <<>> /\ effS = <<>> /\ hist = <<>>
 
@@ -57,7 +67,10 @@ Sync   == /\ pc = "direct" /\ pc' = "done"
                                    IF fs = {} THEN "addSuccess"
                                    ELSE IF Cardinality(fs) > 1 THEN "same-as-direct"
                                    ELSE LET k == row[Ran(row)[CHOOSE i \in fs : TRUE]] IN
-                                        CASE k = "fail" -> "addFailure" [] k = "err" -> "addError" [] k = "skip" -> "addSkip"]>>
+                                        CASE k = "fail" -> "addFailure" [] k = "skip" -> "addSkip"
+                                          [] k \in {"err", "dnf", "dnfsub", "spin", "nores"} -> "addError"
+                                          [] k = "xfail" -> "addExpectedFailure" [] k = "uxs" -> "addUnexpectedSuccess"
+                                          [] OTHER -> "same-as-direct"]>>
           /\ UNCHANGED <<row, via, effD>>
 Next == Direct \/ Sync
 Spec == Init /\ [][Next]_vars
